@@ -90,3 +90,8 @@ CASES += [
     dict(id='c06-eq-unique-from-trait-in-guard', prop='C06', file='src/celma/prog_args/detail/typed_arg.hpp', expect=None,
          old="     mUniqueData = true;\n     mTreatDuplicatesAsErrors = duplicates_are_errors;\n     return this;", new="     mUniqueData = dest_type_t::HasIterators;\n     mTreatDuplicatesAsErrors = duplicates_are_errors;\n     return this;"),
 ]
+
+CASES += [
+    dict(id='c06-queue-tostring-moves-destination', prop='C06', file='src/celma/prog_args/detail/container_adapter.hpp', expect='R2',
+         old="      return format::toString( mDestCont);", new="      return format::toString( std::move( mDestCont));", count=3),
+]
